@@ -190,6 +190,12 @@ def _check_listing(case):
         exp.append(tuple([float(c[0])] + [uv if "--" in x else float(x) for x in c[1:]]))
     if r != exp:
         return 1, "!", None, [Viol("loadTimeSeriesData", f"rows {rows} header={hdr} undefinedValue={uv}: {r}, expected {exp}")]
+    # the caller works on the returned rows in place (sorts them, drops some): the next load of the unchanged file is not affected
+    if isinstance(r, list):
+        r.reverse()
+        if r:
+            r.pop()
+        r.append(("junk",))
     # the same unchanged file again, with another undefinedValue and with the first one: a function of file and arguments only
     other = 7.5 if uv is None else None
     exp2 = []
